@@ -63,7 +63,10 @@ func ParseArch(arch string) (*Arch, error) {
 		OS:  "any",
 		CPU: "any",
 	}
-	return ret, parseArchInto(ret, arch)
+	if err := parseArchInto(ret, arch); err != nil {
+		return nil, err
+	}
+	return ret, nil
 }
 
 /*
